@@ -104,10 +104,10 @@ def run_filler_check(ctx, PID, impl_oracle, proof_target, select=False):
     # cases
     cases = gen_filler.corpus() + [gen_filler.gen_case(ctx.rng) for _ in range(ctx.scale(250, 3000))]
     res = []
-    fmts = ["fb"] if ctx.quick else ["fb", "npz", "tfrec"]
+    fmts = ["fb", "tfrec"] if ctx.quick else ["fb", "npz", "tfrec"]
     per_fmt = {}
     for fmt in fmts:
-        sub = cases if fmt == "fb" else cases[:400]
+        sub = cases if fmt == "fb" else cases[:(40 if ctx.quick else 400)]
         per_fmt[fmt] = (sub, common.run_impl("filler_run.py", {"cases": sub, "format": fmt, "select": select}, timeout=3000)["results"])
     # the same histories with the value one level down in the metadata object, updated in place by the caller
     sub = [c for c in cases if any(op[0] == "M" for op in c["ops"])][:ctx.scale(120, 1200)]
